@@ -94,6 +94,11 @@ def shapes(tier):
         {'initial': INITIAL, 'deviations': d1,
          'script': [('sub', 0, 'A'), ('mp_add', 'm1', 1, 'AB'), ('mp_evict', 'm1'), ('block', cbC)]},
     ]
+    # a block that touches no script hash at all (its only output is unspendable), then mempool traffic
+    out.append({'initial': INITIAL, 'deviations': d1,
+                'script': [('sub', 0, 'A'), ('hsub', 0), ('block', {'cb': 'F'}), ('mp_add', 'm1', 1, 'A')]})
+    out.append({'initial': INITIAL, 'deviations': 0,
+                'script': [('hsub', 0), ('block', {'cb': 'F'}), ('block', {'cb': 'FF'}), ('sub', 0, 'B')]})
     # a subscription placed while the block that touches it is being processed
     out.append({'initial': INITIAL, 'deviations': d1,
                 'script': [(('when', 'bp:advance_block', 1), ('sub', 0, 'A')), ('block', payA), ('block', cbB)]})
